@@ -159,7 +159,7 @@ func isIdent(s string) bool {
 		return false
 	}
 	for i, r := range s {
-		if !(r >= 'a' && r <= 'z' || i > 0 && r >= '0' && r <= '9') {
+		if !(r >= 'a' && r <= 'z' || r >= 'A' && r <= 'Z' || i > 0 && (r >= '0' && r <= '9' || r == '_')) {
 			return false
 		}
 	}
@@ -267,8 +267,11 @@ type Comp struct {
 	Name string            `json:"name"`           // PascalCase base name, e.g. CardA -> <card-a>
 	FM   map[string]vals.V `json:"fm,omitempty"`   // front-matter
 	Wrap bool              `json:"wrap,omitempty"` // body wrapped in a root <template> (forced when Req is set)
-	Req  []Req             `json:"req,omitempty"`
-	Incs []Inc             `json:"incs,omitempty"`
+	// NullAs: how a null front-matter value (vals kind "nil") is spelled: "" = `key: null`,
+	// "empty" = `key:`, "tilde" = `key: ~`.
+	NullAs string `json:"null_as,omitempty"`
+	Req    []Req  `json:"req,omitempty"`
+	Incs   []Inc  `json:"incs,omitempty"`
 }
 
 // Case is a file set plus page data.
@@ -326,9 +329,17 @@ func kebab(s string) string {
 
 func compPath(cp Comp) string { return "components/" + cp.Name + ".vuego" }
 
+// richBlock: the first block of a component file reads every name in three ways - {{ }}, a bound
+// attribute and v-if - since those go through different lookups of the scope.
+func richBlock(id string) bool { return strings.HasPrefix(id, "C") && strings.HasSuffix(id, ".in") }
+
 func block(id string, names []string) string {
 	var b strings.Builder
 	for _, n := range names {
+		if richBlock(id) {
+			fmt.Fprintf(&b, `<i data-m="%s:%s" data-t="{{ %s | type }}" :data-a="%s">{{ %s | json }}<u v-if="%s">T</u></i>`+"\n", id, n, n, n, n, n)
+			continue
+		}
 		fmt.Fprintf(&b, `<i data-m="%s:%s" data-t="{{ %s | type }}">{{ %s | json }}</i>`+"\n", id, n, n, n)
 	}
 	return b.String()
@@ -439,7 +450,15 @@ func files(c Case, short bool) map[string]string {
 			sort.Strings(keys)
 			b.WriteString("---\n")
 			for _, k := range keys {
-				fmt.Fprintf(&b, "%s: %s\n", k, jsonOf(cp.FM[k].Go()))
+				v := cp.FM[k].Go()
+				switch {
+				case v == nil && cp.NullAs == "empty":
+					fmt.Fprintf(&b, "%s:\n", k)
+				case v == nil && cp.NullAs == "tilde":
+					fmt.Fprintf(&b, "%s: ~\n", k)
+				default:
+					fmt.Fprintf(&b, "%s: %s\n", k, jsonOf(v))
+				}
 			}
 			b.WriteString("---\n")
 		}
@@ -562,6 +581,54 @@ type expMarker struct {
 	undef bool   // not visible: must render exactly like u0 of the same block
 	typ   string // "" = not asserted
 	json  string
+	// rich blocks only
+	rich    bool
+	attr    string // expected :data-a text when attrSet
+	attrSet bool   // asserted only for truthy scalars (how falsy values / containers render as attributes is not documented)
+	vif     int    // v-if="NAME": 1 rendered, 0 not rendered, -1 not asserted ("false", empty containers)
+}
+
+// vifOf is the documented truthiness (docs/syntax.md: false, 0, "" and nil are falsey, any other
+// value is truthy); the string "false" and empty containers are left open.
+func vifOf(v any) int {
+	switch x := v.(type) {
+	case nil:
+		return 0
+	case bool:
+		if x {
+			return 1
+		}
+		return 0
+	case string:
+		switch x {
+		case "":
+			return 0
+		case "false":
+			return -1
+		}
+		return 1
+	case int:
+		if x == 0 {
+			return 0
+		}
+		return 1
+	case float64:
+		if x == 0 {
+			return 0
+		}
+		return 1
+	case []any:
+		if len(x) == 0 {
+			return -1
+		}
+		return 1
+	case map[string]any:
+		if len(x) == 0 {
+			return -1
+		}
+		return 1
+	}
+	return -1
 }
 
 type stats struct {
@@ -577,12 +644,15 @@ type stats struct {
 	wrap, nowrap, leakWatch, passThru int
 	omitted                           int
 	jsonDocStatic                     int
+	jsonDocKept                       map[string]int // interpolated / bound strings that are JSON documents (stay strings)
+	nullFM, zeroFM, caseNames         int
+	reqNullFM                         int
 	places                            map[string]int // placements of include tags (loop, slot content, chain member)
 	bracketText                       map[string]int // string props starting with { or [ that are not JSON documents, per mode
 }
 
 func newStats() stats {
-	return stats{modes: map[string]int{}, boundKinds: map[string]int{}, bracketText: map[string]int{}, places: map[string]int{}}
+	return stats{modes: map[string]int{}, boundKinds: map[string]int{}, bracketText: map[string]int{}, places: map[string]int{}, jsonDocKept: map[string]int{}}
 }
 
 type result struct {
@@ -772,10 +842,17 @@ func evalProps(props []Prop, sc scope, r *result) map[string]mv {
 				r.vague = "literal { directly before {{ (ambiguous template syntax)"
 			}
 			if looksJSON(full) {
+				// only JSON written literally in the template is decoded: a value that arrives
+				// through "{{ v }}" stays the string it is. Left open: literal text that starts
+				// with { or [ and becomes a JSON document only through the interpolated part.
 				if _, isDoc := jsonDoc(full); isDoc {
-					r.vague = "interpolated prop value that is a JSON document (decoding documented for static values only, not asserted)"
+					if looksJSON(p.Text) {
+						r.vague = "literal { or [ completed to a JSON document by an interpolation (not asserted)"
+					}
+					r.st.jsonDocKept["interp"]++
+				} else {
+					r.st.bracketText["interp"]++
 				}
-				r.st.bracketText["interp"]++
 			}
 			out[p.Name] = mv{full, true}
 		case "bind", "vbind":
@@ -787,11 +864,16 @@ func evalProps(props []Prop, sc scope, r *result) map[string]mv {
 			if falsy(v.v) {
 				r.st.falsyBound++
 			}
+			if v.v == nil {
+				r.vague = "bound prop whose value is null (not asserted)"
+			}
 			if str, isStr := v.v.(string); isStr && looksJSON(str) {
+				// a bound value keeps its type: a string stays a string even if it is a JSON document
 				if _, isDoc := jsonDoc(str); isDoc {
-					r.vague = "bound string that is a JSON document (decoding documented for static values only, not asserted)"
+					r.st.jsonDocKept["bound"]++
+				} else {
+					r.st.bracketText["bound"]++
 				}
-				r.st.bracketText["bound"]++
 			}
 			r.st.boundKinds[kindOf(v.v)]++
 			if p.Path == p.Name {
@@ -815,13 +897,21 @@ func model(c Case) result {
 	names := c.printed()
 	emit := func(blk string, sc scope) {
 		for _, n := range names {
-			e := expMarker{id: blk + ":" + n, block: blk, name: n}
-			if v, ok := sc[n]; ok {
+			e := expMarker{id: blk + ":" + n, block: blk, name: n, rich: richBlock(blk), vif: -1}
+			if v, ok := sc[n]; ok && v.v != nil {
 				e.json = jsonOf(v.v)
 				if v.typed {
 					e.typ = fmt.Sprintf("%T", v.v)
 				}
+				e.vif = vifOf(v.v)
+				if txt, isScalar := scalarText(v.v); isScalar && e.vif == 1 {
+					if _, isBool := v.v.(bool); !isBool && txt == strings.TrimSpace(txt) {
+						e.attr, e.attrSet = txt, true
+					}
+				}
 			} else {
+				// not visible, or null (front-matter `key:` / `key: ~` / `key: null` overriding a
+				// prop or an includer variable): reads like a name that was never defined
 				e.undef = true
 			}
 			r.exp = append(r.exp, e)
@@ -934,13 +1024,30 @@ func model(c Case) result {
 						r.st.leakWatch++ // a binding the following block must not see
 					}
 				}
+				for k, v := range cp.FM {
+					if contains(c.Names, k) {
+						switch g := v.Go(); {
+						case g == nil:
+							r.st.nullFM++
+						case vifOf(g) != 1:
+							r.st.zeroFM++
+						}
+					}
+				}
 				for _, n := range reqNames(cp) {
 					_, inP := props[n]
-					_, inF := cp.FM[n]
+					fv, inF := cp.FM[n]
 					_, inS := e[n]
+					if n != strings.ToLower(n) {
+						r.st.caseNames++
+					}
 					switch {
 					case inP:
 						r.st.reqProp++
+					case inF && fv.Go() == nil:
+						// declared with a null value: whether that provides the name is left open
+						r.st.reqNullFM++
+						r.scopeOnly = append(r.scopeOnly, n)
 					case inF:
 						r.st.reqFM++
 					case inS:
@@ -1053,9 +1160,29 @@ func judge(what string, out string, err error, m result) error {
 			}
 			u := ref[e.block]
 			if g.Text != u.Text || g.Attrs["data-t"] != u.Attrs["data-t"] {
-				return fmt.Errorf("%s: %s: name %q must not be visible here (never-defined name prints %s type %q) but it prints %s type %q", what, e.id, e.name, u.Text, u.Attrs["data-t"], g.Text, g.Attrs["data-t"])
+				return fmt.Errorf("%s: %s: name %q must not be visible here / is null here (never-defined name prints %s type %q) but it prints %s type %q", what, e.id, e.name, u.Text, u.Attrs["data-t"], g.Text, g.Attrs["data-t"])
+			}
+			if e.rich {
+				ga, gHas := g.Attrs["data-a"]
+				ua, uHas := u.Attrs["data-a"]
+				if gHas != uHas || ga != ua {
+					return fmt.Errorf("%s: %s: name %q must not be visible here / is null here, but :data-a=%q renders %q (present=%v); a never-defined name renders %q (present=%v)", what, e.id, e.name, e.name, ga, gHas, ua, uHas)
+				}
+				if hasKid(g.Node, "u") != hasKid(u.Node, "u") {
+					return fmt.Errorf("%s: %s: name %q must not be visible here / is null here, but v-if=%q rendered=%v unlike a never-defined name", what, e.id, e.name, e.name, hasKid(g.Node, "u"))
+				}
 			}
 			continue
+		}
+		if e.rich {
+			if e.attrSet {
+				if ga, has := g.Attrs["data-a"]; !has || ga != e.attr {
+					return fmt.Errorf("%s: %s: :data-a=%q renders %q (present=%v), want %q - {{ %s | json }} prints %s, want %s", what, e.id, e.name, ga, has, e.attr, e.name, g.Text, e.json)
+				}
+			}
+			if e.vif >= 0 && hasKid(g.Node, "u") != (e.vif == 1) {
+				return fmt.Errorf("%s: %s: v-if=%q rendered=%v, want %v (value %s) - {{ %s | json }} prints %s", what, e.id, e.name, hasKid(g.Node, "u"), e.vif == 1, e.json, e.name, g.Text)
+			}
 		}
 		if g.Text != e.json {
 			return fmt.Errorf("%s: %s: %s prints %s (type %q), want %s (type %q)", what, e.id, e.name, g.Text, g.Attrs["data-t"], e.json, e.typ)
@@ -1065,6 +1192,18 @@ func judge(what string, out string, err error, m result) error {
 		}
 	}
 	return nil
+}
+
+func hasKid(n *hx.N, tag string) bool {
+	if n == nil {
+		return false
+	}
+	for _, k := range n.Kids {
+		if k.Tag == tag {
+			return true
+		}
+	}
+	return false
 }
 
 func describe(c Case) string {
@@ -1159,6 +1298,13 @@ func classify(c Case) (bool, []string) {
 		add(s.bracketText[md] > 0, "bracket-text-not-json-"+md)
 	}
 	add(s.jsonDocStatic > 0, "static-json-document")
+	for _, md := range []string{"interp", "bound"} {
+		add(s.jsonDocKept[md] > 0, "json-document-string-kept-"+md)
+	}
+	add(s.nullFM > 0, "frontmatter-null")
+	add(s.zeroFM > 0, "frontmatter-zeroish")
+	add(s.caseNames > 0, "required-name-with-uppercase")
+	add(s.reqNullFM > 0, "required-null-frontmatter(unasserted)")
 	for k, n := range s.places {
 		add(n > 0, "place:"+k)
 	}
@@ -1197,6 +1343,14 @@ func classify(c Case) (bool, []string) {
 // ---------------------------------------------------------------------------------------------
 
 var universe = []string{"va1", "vb2", "vc3", "vd4"}
+
+// caseNames have upper-case letters. HTML lower-cases attribute names, so they are never props:
+// they reach a component through the includer's data or the component's front-matter, and they
+// are written in :required lists, where the error must name them exactly as written.
+var caseNames = []string{"pageTitle", "UserName", "MAXLEN", "item_2Count", "x_Y"}
+
+func propName(n string) bool { return n == strings.ToLower(n) }
+
 var compNames = []string{"CardA", "BoxB", "Badge", "PanelItemD", "RowE"}
 
 // levelOf spreads n components over include levels 1..3; a component only includes components of
@@ -1272,8 +1426,8 @@ func (g *valGen) next(t *rapid.T, label string, allowFalsy, scalarOnly bool) val
 	}
 }
 
-var bindSources = []string{"d0", "d1", "d2", "d3", "dm", "dm.k", "dm.j", "db", "db"}
-var interpSources = []string{"d2", "d3", "dm.k", "db"}
+var bindSources = []string{"d0", "d1", "d2", "d3", "dm", "dm.k", "dm.j", "db", "db", "dj"}
+var interpSources = []string{"d2", "d3", "dm.k", "db", "dj"}
 
 // bracketTexts start with { or [ but are not JSON documents: with a complete JSON value as a
 // prefix followed by more text, and without. As props they must arrive verbatim, as strings.
@@ -1292,6 +1446,9 @@ var bracketPrefixes = []string{"[1] n", "{} c", "[w ", "{c", `{"k":1}x`, "[d"}
 func genProps(t *rapid.T, g *valGen, names []string, label string, pl *Place) []Prop {
 	var out []Prop
 	for _, n := range names {
+		if !propName(n) {
+			continue
+		}
 		l := label + "." + n
 		src := func(base []string) string {
 			// where the tag is evaluated per element: mostly the element (same name as the loop
@@ -1455,8 +1612,8 @@ func repair(c *Case, avoidFalsy bool) (status []map[string]*nameStatus, excluded
 								if full != strings.TrimSpace(full) {
 									p.Post = "q" // surrounding whitespace of a prop value: not asserted
 								}
-								if _, isDoc := jsonDoc(p.Text + txt + p.Post); isDoc && looksJSON(full) {
-									p.Text = "p" + p.Text // a JSON document: decoding only documented for static values
+								if _, isDoc := jsonDoc(p.Text + txt + p.Post); isDoc && looksJSON(p.Text) {
+									p.Text = "p" + p.Text // literal [ or { completed to a JSON document: not asserted
 								}
 							}
 						}
@@ -1467,10 +1624,8 @@ func repair(c *Case, avoidFalsy bool) (status []map[string]*nameStatus, excluded
 						} else if avoidFalsy && falsy(v.v) {
 							p.Path = "d0"
 							excluded++
-						} else if str, isStr := v.v.(string); isStr && looksJSON(str) {
-							if _, isDoc := jsonDoc(str); isDoc {
-								p.Path = "d0" // bound string that is a JSON document: not asserted
-							}
+						} else if v.v == nil {
+							p.Path = "d0" // bound to a null front-matter value: not asserted
 						}
 					}
 				}
@@ -1494,7 +1649,10 @@ func repair(c *Case, avoidFalsy bool) (status []map[string]*nameStatus, excluded
 					_, inF := cp.FM[n]
 					_, inS := sc[n]
 					st := status[inc.Comp][n]
+					fv := cp.FM[n]
 					switch {
+					case !inP && inF && fv.Go() == nil:
+						st.scopeOnly++ // null front-matter value: left open
 					case inP || inF:
 						st.provided++
 					case inS:
@@ -1540,7 +1698,13 @@ func genCase(rec *ev.Rec, known *kf.File) func(t *rapid.T) Case {
 	avoidNested := known.Open(kfNested)
 	return func(t *rapid.T) Case {
 		g := &valGen{}
-		c := Case{Names: universe[:rapid.IntRange(2, 4).Draw(t, "names")], Print: []string{"d1", "dm"}, Data: map[string]vals.V{}}
+		c := Case{Names: append([]string(nil), universe[:rapid.IntRange(2, 4).Draw(t, "names")]...), Print: []string{"d1", "dm"}, Data: map[string]vals.V{}}
+		// names with upper-case letters (0-2 of them)
+		for i, nc := 0, rapid.IntRange(0, 3).Draw(t, "casenames"); i < nc && i < 2; i++ {
+			if cn := rapid.SampledFrom(caseNames).Draw(t, fmt.Sprintf("casename%d", i)); !contains(c.Names, cn) {
+				c.Names = append(c.Names, cn)
+			}
+		}
 		for _, n := range c.Names {
 			if rapid.Bool().Draw(t, "data."+n) {
 				c.Data[n] = g.next(t, "dataval."+n, true, false)
@@ -1551,6 +1715,7 @@ func genCase(rec *ev.Rec, known *kf.File) func(t *rapid.T) Case {
 		c.Data["d2"] = g.next(t, "d2", true, true)
 		c.Data["d3"] = g.next(t, "d3", false, true)
 		c.Data["db"] = vals.Str(rapid.SampledFrom(bracketTexts).Draw(t, "db"))
+		c.Data["dj"] = vals.Str(rapid.SampledFrom(jsonDocs).Draw(t, "dj")) // a string that is a JSON document: stays a string when bound / interpolated
 		// what placed include tags iterate over / test
 		var rows []vals.V
 		for i, nRows := 0, rapid.IntRange(2, 4).Draw(t, "rows"); i < nRows; i++ {
@@ -1574,9 +1739,14 @@ func genCase(rec *ev.Rec, known *kf.File) func(t *rapid.T) Case {
 					if cp.FM == nil {
 						cp.FM = map[string]vals.V{}
 					}
-					cp.FM[nm] = g.next(t, fmt.Sprintf("c%d.fmval.%s", i, nm), true, false)
+					if rapid.IntRange(0, 5).Draw(t, fmt.Sprintf("c%d.fmnull.%s", i, nm)) == 0 {
+						cp.FM[nm] = vals.Nil() // `key:` / `key: ~` / `key: null`
+					} else {
+						cp.FM[nm] = g.next(t, fmt.Sprintf("c%d.fmval.%s", i, nm), true, false)
+					}
 				}
 			}
+			cp.NullAs = rapid.SampledFrom([]string{"", "empty", "tilde"}).Draw(t, fmt.Sprintf("c%d.nullas", i))
 			if (pool && i == 0) || rapid.IntRange(0, 5).Draw(t, fmt.Sprintf("c%d.big", i)) == 0 {
 				if cp.FM == nil {
 					cp.FM = map[string]vals.V{}
@@ -1642,7 +1812,7 @@ func genCase(rec *ev.Rec, known *kf.File) func(t *rapid.T) Case {
 		}
 
 		// bound the size of the render: nested multi-evaluation placements multiply
-		if len(model(c).exp) > 900 {
+		if len(model(c).exp) > 500 {
 			for i := range c.Comps {
 				for j := range c.Comps[i].Incs {
 					if pl := c.Comps[i].Incs[j].Place; pl != nil && pl.Kind != "chain" {
@@ -2108,6 +2278,100 @@ func enumPool(yield func(Case) bool) int {
 	return n
 }
 
+// enumCase: a required name with upper-case letters (never a prop: HTML lower-cases attribute
+// names) provided by the component's front-matter, by the includer's data, by both or by nothing,
+// in every spelling of the :required list; the error must name it exactly as written.
+func enumCase(yield func(Case) bool) int {
+	n := 0
+	for ci, cn := range caseNames {
+		for z := 0; z < 4; z++ {
+			inFM, inData := z&1 != 0, z&2 != 0
+			for shape := 0; shape < 4; shape++ {
+				c := Case{Names: []string{"va1", cn}, Print: []string{"d1"}, Data: fixedData(), NestedShort: true,
+					Comps: []Comp{{Name: "CardA", Wrap: true}, {Name: "BoxB"}}}
+				if inData {
+					c.Data[cn] = vals.Str("incl")
+				}
+				if inFM {
+					c.Comps[0].FM = map[string]vals.V{cn: vals.Int(500 + ci)}
+				}
+				switch shape {
+				case 0:
+					c.Comps[0].Req = []Req{{":required", cn}}
+				case 1:
+					c.Comps[0].Req = []Req{{":require", "va1, " + cn}}
+				case 2:
+					c.Comps[0].Req = []Req{{":require", cn}, {":require", "va1"}}
+				case 3: // required one level down: the leaf gets the name from the outer component's scope or front-matter
+					c.Comps[1].Req = []Req{{":required", cn + ",va1"}}
+					c.Comps[1].FM = c.Comps[0].FM
+					c.Comps[0].FM = nil
+					c.Comps[0].Incs = []Inc{{Comp: 1, Props: []Prop{{Name: "va1", Mode: "bind", Path: "va1"}}}}
+				}
+				// a lower-case twin of the name as a prop must not satisfy (or disturb) it
+				props := []Prop{{Name: "va1", Mode: "static", Text: "st"}}
+				if shape == 2 {
+					props = append(props, Prop{Name: strings.ToLower(cn), Mode: "static", Text: "twin"})
+				}
+				c.Page = []Inc{{Comp: 0, Props: props}}
+				n++
+				if !yield(c) {
+					return n
+				}
+			}
+		}
+	}
+	return n
+}
+
+// enumFMZero: a front-matter value that is null (in the three YAML spellings) or zero-ish
+// ("", 0, 0.0, false, "false", [], {}) still overrides a prop and an includer variable of the
+// same name: the component reads it through {{ }}, a bound attribute and v-if.
+func enumFMZero(yield func(Case) bool) int {
+	type fmv struct {
+		v      vals.V
+		nullAs string
+	}
+	list := []fmv{{vals.Nil(), ""}, {vals.Nil(), "empty"}, {vals.Nil(), "tilde"}, {vals.Str(""), ""}, {vals.Int(0), ""}, {vals.Num("float64", "0"), ""},
+		{vals.Bool(false), ""}, {vals.Str("false"), ""}, {vals.List("[]any"), ""}, {vals.Map(map[string]vals.V{}), ""}}
+	n := 0
+	for _, f := range list {
+		for _, mode := range []string{"omit", "static", "interp", "bind", "vbind"} {
+			for z := 0; z < 8; z++ {
+				inData, wrap, nested := z&1 != 0, z&2 != 0, z&4 != 0
+				c := Case{Names: []string{"va1", "vb2"}, Print: []string{"d1"}, Data: fixedData(), NestedShort: true,
+					Comps: []Comp{{Name: "CardA", Wrap: wrap, NullAs: f.nullAs, FM: map[string]vals.V{"va1": f.v, "vb2": vals.Str("fm2")}}, {Name: "BoxB"}}}
+				if inData {
+					c.Data["va1"] = vals.Str("incl")
+				}
+				var props []Prop
+				switch mode {
+				case "static":
+					props = []Prop{{Name: "va1", Mode: "static", Text: "st"}}
+				case "interp":
+					props = []Prop{{Name: "va1", Mode: "interp", Text: "p", Path: "d2"}}
+				case "bind":
+					props = []Prop{{Name: "va1", Mode: "bind", Path: "d0"}}
+				case "vbind":
+					props = []Prop{{Name: "va1", Mode: "vbind", Path: "dm"}}
+				}
+				if nested { // the component with the front-matter sits one level down
+					c.Comps[1].Incs = nil
+					c.Comps = []Comp{{Name: "BoxB", Incs: []Inc{{Comp: 1, Props: props}}}, c.Comps[0]}
+					c.Page = []Inc{{Comp: 0, Props: []Prop{{Name: "va1", Mode: "static", Text: "outer"}}}}
+				} else {
+					c.Page = []Inc{{Comp: 0, Props: props}}
+				}
+				n++
+				if !yield(c) {
+					return n
+				}
+			}
+		}
+	}
+	return n
+}
+
 // ---------------------------------------------------------------------------------------------
 // Tests
 // ---------------------------------------------------------------------------------------------
@@ -2151,6 +2415,8 @@ func TestProp(t *testing.T) {
 	n4, skipped := enumTypes(!known.Open(kfFalsy), each("enum-types"))
 	n5 := enumPlace(each("enum-place"))
 	n6 := enumPool(each("enum-pool"))
+	n7 := enumCase(each("enum-case"))
+	n8 := enumFMZero(each("enum-fmzero"))
 	if shard == 0 {
 		for k := 0; k < skipped; k++ {
 			rec.Excluded(kfFalsy)
@@ -2162,7 +2428,7 @@ func TestProp(t *testing.T) {
 		}
 	}
 	if full && !rec.Failed() {
-		rec.Exhaustive(fmt.Sprintf("flat: %d names x {5 prop modes x front-matter x includer x required} (%d); twice: same component twice, 5^4 prop modes x front-matter x includer (%d); chain: depth-3 chain, one name, 10 states per level x includer x leaf required (%d); types: 33 values (16 of them texts starting with [ or { that are not JSON) x 5 modes x 4 collisions + 7 JSON documents as static props (%d); place: 39 placements (loop, slot content, chain member) x 6 ways of passing va1 x front-matter x includer x required (%d); pool: component with 9..12 bindings followed by loop / slot placements, twice (%d)", run.Pick(2, 3), n1, n2, n3, n4, n5, n6))
+		rec.Exhaustive(fmt.Sprintf("flat: %d names x {5 prop modes x front-matter x includer x required} (%d); twice: same component twice, 5^4 prop modes x front-matter x includer (%d); chain: depth-3 chain, one name, 10 states per level x includer x leaf required (%d); types: 33 values (16 of them texts starting with [ or { that are not JSON) x 5 modes x 4 collisions + 7 JSON documents as static props (%d); place: 39 placements (loop, slot content, chain member) x 6 ways of passing va1 x front-matter x includer x required (%d); pool: component with 9..12 bindings followed by loop / slot placements, twice (%d); case: 5 names with upper-case letters x front-matter x includer x 4 :required spellings (%d); fmzero: 10 null / zero-ish front-matter values x 5 prop modes x includer x root template x nesting (%d)", run.Pick(2, 3), n1, n2, n3, n4, n5, n6, n7, n8))
 	}
 
 	run.Rapid(t, rec, "random", genCase(rec, known), classify, check)
